@@ -55,6 +55,8 @@ def xform(sk, *xs):
         f, pos, _ = build_tree(sk["tree"], xs)
     ids = rank_ids_for(d)
     shp = list(sk["box"]) if (sk.get("box") and S is None) else [S] * d      # S=None: a box that is not a cube carries its own dimensions
+    if sk.get("Sv"):
+        shp = list(sk["Sv"])                                                  # ranks of different extents
     t = Tensor.fromFiber(ids, f, shape=shp) if not sk.get("noshape") else Tensor.fromFiber(ids, f)
     c0 = content(t.getRoot())
     n = xforms.xf_nargs(name, opt)
@@ -124,6 +126,8 @@ def xform(sk, *xs):
     if name in ("flatten_unflatten", "swap_swap"):
         if not (r == t):
             return fail("%s: inverse does not restore an equal tensor" % name)
+        if not sk.get("noshape") and r.getShape() != t.getShape():
+            return fail("%s: the restored tensor reports shape %r, the original %r" % (name, r.getShape(), t.getShape()))
         if name == "flatten_unflatten" and r.getRankIds() != t.getRankIds():
             return fail("%s: rank ids not restored" % name)
     if name == "swizzleRanks":
@@ -169,7 +173,41 @@ def flatten_twice(sk, *xs):
     return True
 
 
-def _mk(tree, name, opt, box=None, S=4, noshape=False, fixed=None, canon=False):
+def flatten_swap(sk, *xs):
+    """swapping ranks of a tensor that is itself a flatten result (one of the swapped ranks has tuple coordinates): every point ((b, c) kept as
+    one coordinate) moves to its swapped image and the second swap restores the flattened tensor"""
+    tree, S = sk["tree"], sk["S"]
+    f, pos, _ = build_tree(tree, xs)
+    t = Tensor.fromFiber(["A", "B", "C"], f, shape=[S] * 3)
+    f1 = t.flattenRanks(depth=1)
+    c1 = content(f1.getRoot())
+    r = f1.swapRanks(depth=0)
+    want = sorted([((p[1], p[0]), v) for p, v in c1])
+    if content(r.getRoot()) != want:
+        return fail("swapRanks of a flattened tensor: content %r, expected %r" % (content(r.getRoot()), want))
+    if r.getRankIds() != [["B", "C"], "A"]:
+        return fail("rank ids %r" % (r.getRankIds(),))
+    back = r.swapRanks(depth=0)
+    if content(back.getRoot()) != c1 or not (back == f1):
+        return fail("the second swap does not restore the flattened tensor")
+    if content(f1.getRoot()) != c1:
+        return fail("operand changed")
+    return wf(r.getRoot()) >= 0 and mirror(r)
+
+
+def _mk(tree, name, opt, box=None, S=4, noshape=False, fixed=None, canon=False, Sv=None):
+    if Sv:
+        # a chain skeleton ([[1]], [[[1]]]) inside a shape whose extents all differ
+        ps = names("x", tree_params(tree))
+        pre, _, cn = tree_pre(tree, ps)
+        pre = pre + ["0 <= %s < %d" % (c, Sv[i]) for i, c in enumerate(cn)]
+        d = tree_depth(tree)
+        label = name + "(" + ",".join("%s=%s" % kv for kv in sorted(opt.items())) + ")"
+        ob = Ob("%s/%s/shape%s" % (str(tree).replace(" ", ""), label.replace(" ", ""), "x".join(map(str, Sv))), "xform",
+                dict(tree=tree, xf=name, opt=opt, depth=d, box=None, S=max(Sv), noshape=False, fixed=None, canon=False, Sv=list(Sv)), ps, pre)
+        if opt.get("depth", 0) >= 1:
+            ob.tags["alldefault_sub"] = alldefault_sub_expr(tree, ps)
+        return ob
     if box:
         ps = names("v", box_size(box) - len(fixed or []))
         pre = []
@@ -226,6 +264,15 @@ def obligations(tier):
     for tree in t3:
         for name, opt in xf3(tier):
             obs.append(_mk(tree, name, opt))
+    for name, opt in (("flatten_unflatten", {"depth": 1}), ("flatten_unflatten", {}), ("swap_swap", {"depth": 1}), ("flatten_unflatten", {"levels": 2})):
+        obs.append(_mk([[1]], name, opt, Sv=[2, 3, 4]))
+    obs.append(_mk([[[1]]], "flatten_unflatten", {"depth": 1, "levels": 2}, Sv=[2, 2, 3, 5]))
+    for tree in ([[[1]]] if q else [[[1]], [[1, 1]], [[1], [1]]]):
+        ps = names("x", tree_params(tree))
+        pre, _, cn = tree_pre(tree, ps)
+        ob = Ob("flatten-swap(depth=1)/%s" % str(tree).replace(" ", ""), "flatten_swap", dict(tree=tree, S=4), ps, pre + bound_pre(cn, 0, 4))
+        ob.tags["alldefault_sub"] = alldefault_sub_expr(tree, ps)       # the first step is a depth-1 transform: known finding F16's region
+        obs.append(ob)
     for tree in ([[[1]]] if q else [[[1]], [[1, 1]], [[1], [1]]]):
         for second in ("flatten", "merge"):
             ps = names("x", tree_params(tree))
